@@ -192,6 +192,23 @@ def shrink(rr, case):
     return cur
 
 
+def failing_obligations(make_log):
+    """names of the lemmas of Obligations.v at which the build stopped (from the make -k log)"""
+    import re
+    path = os.path.join(common.VERIF, "coq", GROUP, "Obligations.v")
+    lines = open(path).read().splitlines() if os.path.exists(path) else []
+    names = []
+    for m in re.finditer(r'File "\./Obligations\.v", line (\d+)', make_log):
+        cur = None
+        for l in lines[:int(m.group(1))]:
+            mm = re.match(r"\s*(?:Lemma|Theorem)\s+([A-Za-z0-9_']+)", l)
+            if mm:
+                cur = mm.group(1)
+        if cur and cur not in names:
+            names.append(cur)
+    return names
+
+
 def run(ctx):
     ob_failed = []
     ok, msg = ctx.tables(GROUP)
@@ -211,9 +228,9 @@ def run(ctx):
     if info["rc"] != 0:
         ob_failed.append("theorem %s in %s no longer checks: %s" % (
             info.get("failed_at"), PROP_FILE, " ".join(info["log"].split())[-400:]))
-        ob_log = [l for l in log.splitlines() if "Obligations.v" in l or "Unable to unify" in l]
-        if ob_log:
-            ob_failed.append("obligation: " + " ".join(ob_log)[:400])
+        names = failing_obligations(log)
+        if names:
+            ob_failed.insert(0, "table obligation(s) no longer hold for the source tree: " + ", ".join(names))
     if core_broken:
         ob_failed.append("model/proof files do not compile: %s\n%s" % (core_broken, log[-1500:]))
 
